@@ -390,6 +390,43 @@ def rule_self(repo, tier):
 
 
 @guarded
+def rule_rankidx(repo, tier):
+    """A tensor used to index the point axis keeps its rank whatever the number of points / occupied voxels is.  An argument-less
+    `.squeeze()` removes EVERY singleton axis; applied to an index vector it turns a one-element index into a 0-dim tensor, and indexing with a
+    0-dim tensor drops the point axis (one occupied voxel: result (D,) instead of (1, D)) or, one step later, raises (a one-point cloud)."""
+    res = RuleResult('C18.RANK', 'index tensors of the point-cloud functions are never passed through an argument-less squeeze(): a cloud of one point '
+                     'or one occupied voxel is inside the stated range', floor=1)
+    n_idx = 0
+    for f in repo.module(GEO).functions.values():
+        squeezed = {}
+        for a in ast.walk(f.node):
+            if isinstance(a, ast.Assign) and len(a.targets) == 1 and isinstance(a.targets[0], ast.Name):
+                v = a.value
+                if isinstance(v, ast.Call) and isinstance(v.func, ast.Attribute) and v.func.attr == 'squeeze' and not v.args and not v.keywords:
+                    squeezed[a.targets[0].id] = a
+        used = set()
+        for sub in ast.walk(f.node):
+            if isinstance(sub, ast.Subscript):
+                elts = sub.slice.elts if isinstance(sub.slice, ast.Tuple) else [sub.slice]
+                for e in elts:
+                    if isinstance(e, ast.Name):
+                        n_idx += 1
+                        if e.id in squeezed:
+                            used.add(e.id)
+                    elif isinstance(e, ast.Call) and isinstance(e.func, ast.Attribute) and e.func.attr == 'squeeze' and not e.args and not e.keywords:
+                        res.add(Finding('C18.RANK', f, '`%s` indexes with an argument-less squeeze()' % src(sub)[:60], node=sub))
+        res.inst({'function': f.fq, 'index tensors built with a bare squeeze()': sorted(used)}, f.fq)
+        for name in sorted(used):
+            a = squeezed[name]
+            res.add(Finding('C18.RANK', f, '`%s` builds the index tensor `%s` with an argument-less squeeze(): with a single point / a single occupied voxel '
+                            'it becomes 0-dimensional and the indexed axis disappears from the result (or the next indexing raises)' % (src(a)[:70], name),
+                            node=a, construct='bare squeeze|' + name))
+    if n_idx == 0:
+        raise AnalysisError('C18.RANK: no tensor-indexed subscript found in the geometry module')
+    return res
+
+
+@guarded
 def rule_memo18(repo, tier):
     from ..memo import rule_memo
     return rule_memo(repo, 'C18.MEMO', 'the point-cloud and camera helpers are functions of their arguments: nothing computed from the contents of a point '
@@ -398,4 +435,4 @@ def rule_memo18(repo, tier):
 
 
 def rules(repo, tier):
-    return [rule_idx(repo, tier), rule_sign(repo, tier), rule_fwd(repo, tier), rule_memo18(repo, tier), rule_self(repo, tier)]
+    return [rule_idx(repo, tier), rule_sign(repo, tier), rule_fwd(repo, tier), rule_memo18(repo, tier), rule_self(repo, tier), rule_rankidx(repo, tier)]
